@@ -1,11 +1,12 @@
 #!/bin/bash
 # run_seeded.sh <patch.diff> <ID> [ID...] : apply a seeded change to /repo, run the quick checks, undo.
+REPO="${VERIF_REPO:-/repo}"; HOME_V="${VERIF_HOME:-/verif}"
 P="$1"; shift
-cd /repo && git diff --quiet || { echo "/repo has uncommitted changes"; exit 2; }
-git -C /repo apply "$P" || { echo "patch does not apply to /repo"; exit 2; }
+cd "$REPO" && git diff --quiet || { echo "$REPO has uncommitted changes"; exit 2; }
+git -C "$REPO" apply "$P" || { echo "patch does not apply to $REPO"; exit 2; }
 for id in "$@"; do
-  out=$(cd /verif && ./check $id --tier quick --no-evidence 2>&1)
+  out=$(cd "$HOME_V" && ./check $id --tier quick --no-evidence 2>&1)
   echo "$id exit=$? $(echo "$out" | grep -E "^VIOLATION|^# done|HARNESS" | tr '\n' ' ')"
 done
-git -C /repo checkout -- .
-cd /verif/sim && cargo build --release --offline -q 2>/dev/null
+git -C "$REPO" checkout -- .
+cd "$HOME_V/sim" && cargo build --release --offline -q 2>/dev/null
